@@ -106,6 +106,14 @@ func c09Str(c *core.Ctx, cs c09Case) {
 			c.Report("well-formed version string rejected", mkWhat("%q: %v", cs.Str, err), cs)
 		} else if v.Major != maj || v.Minor != min {
 			c.Report("version string parsed to the wrong pair", mkWhat("%q -> %d.%d", cs.Str, v.Major, v.Minor), cs)
+		} else {
+			// the value belongs to the caller: changing it must not change what the next call (the caller's or the
+			// scanner's own version.New("7.3")) gets for the same string
+			v.Major, v.Minor = v.Major+1, v.Minor+7
+			if w, err2 := version.New(cs.Str); err2 != nil || w == nil || w.Major != maj || w.Minor != min {
+				c.Report("version string parsed to the wrong pair after the caller changed an earlier result", mkWhat("%q -> %+v (%v)", cs.Str, w, err2), cs)
+			}
+			v.Major, v.Minor = maj, min
 		}
 	} else if err == nil {
 		c.Report("malformed version string accepted", mkWhat("%q -> %+v", cs.Str, v), cs)
